@@ -565,8 +565,10 @@ def run_config_case(ck, drv, sg, spec):
             if sg.expect(rom is not None, (spec, "cli"), "the ROM model refuses the file written by `nxpimage sb31 export`"):
                 sg.expect(rom["cmds"] == [" ".join(c) for c in expected], (spec, "cli"), "CLI: decoded commands differ from the configuration", rom["cmds"][:6])
                 sg.expect(all(ecdsa_ok(*o) for o in rom["obs"]), (spec, "cli"), "CLI: a signature obligation does not verify")
-            # same header | hash and same data blocks as the API path (signatures are random)
-            sg.expect(data[:60 + hl] == ref[:60 + hl] and data[total:] == ref[total:] and len(data) == len(ref), (spec, "cli"),
+            # same header | hash and same data blocks as the API path (signatures are random); with timestamp 0 (= now) the two
+            # objects may be built in different seconds, so only the lengths are comparable
+            same = len(data) == len(ref) if spec["ts"] == 0 else data[:60 + hl] == ref[:60 + hl] and data[total:] == ref[total:] and len(data) == len(ref)
+            sg.expect(same, (spec, "cli"),
                       "`nxpimage sb31 export` and load_from_config().export() disagree outside the signatures")
     finally:
         shutil.rmtree(tmp, ignore_errors=True)
